@@ -97,17 +97,25 @@ def _replay_job(job):
 
 def replay(ctx, beh, idx, newton_too=True):
     """Replays one behaviour; returns number of steps checked."""
-    K, C, M = mat(beh["mat"]["k"]), mat(beh["mat"]["c"]), mat(beh["mat"]["m"])
+    m0 = beh["steps"][0].get("matv", beh["mat"])
+    # the matrices are arrays modified in place when a step comes with other matrices (K, C, M re-assembled between two steps)
+    K, C, M = mat(m0["k"]), mat(m0["c"]), mat(m0["m"])
     sims = [("direct", _make(K, C, M))]
     if newton_too and all(s["p"]["algo"] != "euler_explicit" for s in beh["steps"]):
         sims.append(("newton", _make(K, C, M, newton=True)))
     nchecked = 0
     for mode, simu in sims:
+        K[...], C[...], M[...] = mat(m0["k"]), mat(m0["c"]), mat(m0["m"])
         pre = beh["steps"][0]["pre"]
         simu.set_state(vec(pre[0]), vec(pre[1]), vec(pre[2]))
         for k, st in enumerate(beh["steps"]):
             p = st["p"]
             key = f"{p['algo']}/{mode}"
+            if "matv" in st:
+                Kn, Cn, Mn = mat(st["matv"]["k"]), mat(st["matv"]["c"]), mat(st["matv"]["m"])
+                if not (np.array_equal(Kn, K) and np.array_equal(Cn, C) and np.array_equal(Mn, M)):
+                    K[...], C[...], M[...] = Kn, Cn, Mn
+                    simu.model.Need_Update()  # what a parameter setter does: the simulation is notified and re-assembles
             _set_algo(simu, p)
             simu.Bc_Init()
             F = vec(st["F"])
@@ -166,9 +174,9 @@ def replay(ctx, beh, idx, newton_too=True):
 def run(ctx):
     cfgs = []
     if ctx.thorough:
-        cfgs = ["MC_TimeSchemes_onestep_thorough.cfg", "MC_TimeSchemes_free.cfg", "MC_TimeSchemes_switch_thorough.cfg"]
+        cfgs = ["MC_TimeSchemes_onestep_thorough.cfg", "MC_TimeSchemes_free.cfg", "MC_TimeSchemes_switch_thorough.cfg", "MC_TimeSchemes_matchange.cfg"]
     else:
-        cfgs = ["MC_TimeSchemes_onestep_quick.cfg", "MC_TimeSchemes_free.cfg", "MC_TimeSchemes_switch_quick.cfg"]
+        cfgs = ["MC_TimeSchemes_onestep_quick.cfg", "MC_TimeSchemes_free.cfg", "MC_TimeSchemes_switch_quick.cfg", "MC_TimeSchemes_matchange.cfg"]
     if ctx.replay:
         import json
 
